@@ -535,6 +535,8 @@ class Ev(object):
             return [(st, ExtV(o.name + "." + name))]
         if isinstance(o, Bound) and name == "__self__":
             return [(st, o.recv)]
+        if is_app(o, "sha256obj") and name in ("block_size", "digest_size", "name"):
+            return [(st, Const({"block_size": 64, "digest_size": 32, "name": "sha256"}[name]))]
         return [(st, mk_app("getattr", [o, Const(name)]))]
 
     def _class_env(self, cls):
